@@ -15,6 +15,8 @@
 (*   "HexOddLow"   a final odd hex digit d yields 0d instead of d0          *)
 (*   "HexNulEnds"  NUL ends a hex string instead of being white space      *)
 (*   "RawEOLKept"  raw CR / CR LF inside ( ) is copied, not turned into LF *)
+(*   "NulNotDelim" NUL (white space in ISO 32000-1 table 1) does not end a *)
+(*                 name or keyword                                         *)
 (***************************************************************************)
 EXTENDS Integers, Sequences, FiniteSets
 
@@ -25,6 +27,7 @@ OCTD    == 48..55
 ALPHA   == (65..90) \cup (97..122)
 HEXD    == DIGIT \cup (65..70) \cup (97..102)
 ENDLIT  == {35, 47, 37, 91, 93, 40, 41, 60, 62, 123, 125} \cup WS
+EndLit(dev) == IF "NulNotDelim" \in dev THEN ENDLIT ELSE ENDLIT \cup {0}
 ESCS    == {98, 116, 110, 102, 114, 40, 41, 92}
 EscVal(b) == CASE b = 98 -> 8 [] b = 116 -> 9 [] b = 110 -> 10 [] b = 102 -> 12
                [] b = 114 -> 13 [] OTHER -> b
@@ -83,8 +86,8 @@ SComment(s, D) ==
   [s EXCEPT !.cur = s.cur \o Slice(D, s.p, j), !.p = j,
             !.st = IF j = s.e THEN "comment" ELSE "main"]
 
-SLiteral(s, D) ==
-  LET j == First(D, s.p, s.e, ENDLIT)
+SLiteral(s, D, dev) ==
+  LET j == First(D, s.p, s.e, EndLit(dev))
       t == s.cur \o Slice(D, s.p, j) IN
   IF j = s.e THEN [s EXCEPT !.cur = t, !.p = j]
   ELSE IF D[j + 1] = 35
@@ -114,8 +117,8 @@ SFloat(s, D) ==
   ELSE [s EXCEPT !.cur = t, !.st = "main", !.p = j,
                  !.out = IF HasDigit(t) THEN Emit(s, "real", t) ELSE s.out]
 
-SKeyword(s, D) ==
-  LET j == First(D, s.p, s.e, ENDLIT)
+SKeyword(s, D, dev) ==
+  LET j == First(D, s.p, s.e, EndLit(dev))
       t == s.cur \o Slice(D, s.p, j) IN
   IF j = s.e THEN [s EXCEPT !.cur = t, !.p = j]
   ELSE [s EXCEPT !.cur = t, !.st = "main", !.p = j, !.out = Emit(s, "kw", t)]
@@ -193,11 +196,11 @@ Flush(s, dev) ==
 Scan(s, D, dev) ==
   CASE s.st = "main"    -> SMain(s, D)
     [] s.st = "comment" -> SComment(s, D)
-    [] s.st = "literal" -> SLiteral(s, D)
+    [] s.st = "literal" -> SLiteral(s, D, dev)
     [] s.st = "lithex"  -> SLitHex(s, D)
     [] s.st = "number"  -> SNumber(s, D)
     [] s.st = "float"   -> SFloat(s, D)
-    [] s.st = "keyword" -> SKeyword(s, D)
+    [] s.st = "keyword" -> SKeyword(s, D, dev)
     [] s.st = "string"  -> SString(s, D, dev)
     [] s.st = "string1" -> SString1(s, D, dev)
     [] s.st = "stringlf" -> SStringLF(s, D)
